@@ -97,7 +97,7 @@ inline int compare(const Vec4_<T>& a, const Vec4_<T>& b)
 	if(a.x < b.x) return -1;
 	else if(a.x == b.x && a.y < b.y) return -1;
 	else if(a.x == b.x && a.y == b.y && a.z < b.z) return -1;
-	else if(a.x == b.x && a.y == b.y && a.z == b.z) return 0;
+	else if(a.x == b.x && a.y == b.y && a.z == b.z && a.w < b.w) return -1;
 	else if(a.x == b.x && a.y == b.y && a.z == b.z && a.w == b.w) return 0;
 	else return 1;
 }
